@@ -33,7 +33,7 @@ func transcode(h *rt.H, src, dst *codec) {
 	if len(stream) > 1 {
 		cuts[h.Choose("cut", 0, len(stream)-2)] = true
 	}
-	_, err := src.parseReader(&chunkReader{doc: cloneBytes(stream), cuts: cuts}, enc)
+	_, err := src.parseReader(newChunkReader(h, stream, cuts), enc)
 	h.Assert("transcoded", err == nil)
 	got, gclass, gitems := dst.refDecode(h, out.B)
 	h.Assert("valid-target", gclass == ref.OK && gitems == ndocs)
